@@ -152,7 +152,7 @@ int32_t tls13NewTicket(ssl_t *ssl,
     psSize_t pskIdLen;
     unsigned char pskId[32], iv[12];
     psDynBuf_t buf;
-    psSessionTicketKeys_t *key;
+    psSessionTicketKeys_t *key, keyCopy;
     psAesGcm_t ctx;
     unsigned char *state, *tag, *out;
     psSizeL_t stateLen, outLen;
@@ -217,8 +217,8 @@ int32_t tls13NewTicket(ssl_t *ssl,
       containing the PSK and the session parameters.
     */
 
-    key = ssl->keys->sessTickets;
-    if (key == NULL)
+    key = &keyCopy;
+    if (matrixSslCopySessionTicketKey(ssl->keys, NULL, &keyCopy) != PS_SUCCESS)
     {
         psTraceErrr("Error: no session ticket keys loaded\n");
         tls13FreePsk(psk, ssl->hsPool);
